@@ -115,6 +115,11 @@ Fixpoint replace_nth {A} (k : nat) (x : A) (l : list A) : list A :=
 (* Hm4: every line written as a // comment *)
 Definition hm4_events (f : fields) : list hevent := map line_comment_event (template_mids f).
 
+(* Hm4, one line only: line k (0-based) written as a // comment, the other lines unchanged *)
+Definition hm4k_events (k : nat) (f : fields) : list hevent :=
+  (map comment_event (firstn k (template f)) ++ [line_comment_event (nth k (template_mids f) [])]) ++
+  map comment_event (skipn (S k) (template f)).
+
 (* Hm5: one block comment: the inner delimiters replaced by `**` *)
 Fixpoint join (sep : str) (ls : list str) : str :=
   match ls with
